@@ -23,6 +23,14 @@ for l in open("/verif/properties.jsonl"):
     d = json.loads(l)
     for f in d["anchors"]["files"]:
         files[f].append(d["id"])
+files["maptile/set.go"].append("C14")  # (the tile covers of collections are built with Set.Merge)
+RECHECK = os.environ.get("MUT_RECHECK")  # a results file: run only the checks again on the mutants recorded there as survived
+if RECHECK:
+    want = collections.defaultdict(list)
+    for l in open(RECHECK):
+        r = json.loads(l)
+        if r["outcome"] == "survived":
+            want[r["file"]].append(r["index"])
 out = open(f"/tmp/mut/results-slot{slot}.jsonl", "a")
 done = set()
 try:
@@ -44,9 +52,11 @@ for fi, f in enumerate(sorted(files)):
     rnd = random.Random(f"{seed}:{f}")
     idxs = list(range(len(pts)))
     rnd.shuffle(idxs)
+    if RECHECK:
+        idxs = sorted(set(want.get(f, [])))
     taken = 0
     for i in idxs:
-        if taken >= per_file:
+        if taken >= per_file and not RECHECK:
             break
         if (f, i) in done:
             taken += 1
@@ -62,7 +72,7 @@ for fi, f in enumerate(sorted(files)):
                 rec["outcome"] = "does not compile"
                 continue  # (not counted: finally restores the file)
             taken += 1
-            rc, o = sh("go test -vet=off -timeout 120s ./...", repo, 900)
+            rc, o = (0, "") if RECHECK else sh("go test -vet=off -timeout 120s ./...", repo, 900)
             if rc != 0:
                 rec["outcome"] = "killed by the repository's tests"
             else:
